@@ -23,6 +23,7 @@ from . import c10 as _c10
 
 PROP = 'C06'
 LEVEL = 'fault_enumeration'
+HANG_LIMIT_S = 180.0     # one run enumerates hundreds of faulty deliveries of a program
 RULE = ('per generated program (nesting <= 5, depth probe <= 50, lines padded to 0-400 chars) every line-boundary '
         'truncation and, for chosen lines, every column of token_corrupt/token_delete is one evaluation, plus seeded '
         'byte truncations, dangling continuations, closer deletions and token swaps; non-trivial = the fault changed '
@@ -41,7 +42,7 @@ ASSUMPTIONS = [
 
 def budget(tier):
     if tier == 'thorough':
-        return {'seeds': 24000, 'chunk': 40, 'wall_cap': 1500, 'extra': {'big': True}}
+        return {'seeds': 14000, 'chunk': 20, 'wall_cap': 1200, 'extra': {'big': True}}
     return {'seeds': 1600, 'chunk': 20, 'wall_cap': 240, 'extra': None}
 
 
@@ -220,7 +221,7 @@ def check_delivered(text, start, fault, stats, viols, light=False, chunk_rng=Non
                                    {'fault': fault, 'k': k, 'kind': kind, 'before': err.error}))
             return 'error-shift'
         if e2.line_number != ln + k or e2.error != err.error or e2.line != line or e2.column_number != col or \
-                str(e2).replace(f'line number {ln + k}:', 'line number N:') != str(err).replace(f'line number {ln}:', 'line number N:'):
+                _renumber(str(e2), ln + k) != _renumber(str(err), ln):
             viols.append(Violation(PROP, 'shift', f'prepended-lines-do-not-shift-by-k:{stmt_kind(lg.text)}',
                                    {'fault': fault, 'k': k, 'kind': kind, 'line_number_before': ln, 'after': e2.line_number,
                                     'error_before': err.error, 'error_after': e2.error, 'col': [col, e2.column_number]}))
@@ -235,14 +236,22 @@ def check_delivered(text, start, fault, stats, viols, light=False, chunk_rng=Non
     return 'error'
 
 
+def _renumber(message, number):
+    """The formatted message with the line number masked in its header line(s) (not in the source line shown)."""
+    parts = message.split('\n')
+    head = [_re.sub(r'(?<!\d)%d(?!\d)' % number, 'N', h) for h in parts[:-3]]
+    return '\n'.join(head + parts[-3:])
+
+
 def check_caret(err, ln):
     msg = str(err)
     parts = msg.split('\n')
     if len(parts) < 4 or parts[-1] != '':
         return ('message-format', 'expected header, line, caret line')
     header, shown, caret = parts[-4], parts[-3], parts[-2]
-    if header != f'{err.error}, line number {ln}:':
-        return ('message-format', f'header {header!r}')
+    # the wording of the header is not fixed by the property; it must carry the error text and the line number
+    if err.error not in header or not _re.search(r'(?<!\d)%d(?!\d)' % ln, header):
+        return ('message-format', f'header {header!r} lacks the error text or the line number')
     if not caret.endswith('^') or caret.strip(' ') != '^':
         return ('message-format', f'caret line {caret!r}')
     n = len(caret) - 1
@@ -344,6 +353,26 @@ def run(plan, stats):
     closers = [i for i, t in enumerate(phys) if t.strip() in ('endif', 'endwhile', 'endfor', 'endfunction')]
     for i in frng.sample(closers, min(3, len(closers))):
         case('\n'.join(phys[:i] + phys[i + 1:]) + '\n', {'kind': 'closer_delete', 'line': i + 1, 'stmt': phys[i].strip()})
+    # 4b. structural faults: an opener lost, a line duplicated, two lines swapped, a stray block keyword inserted
+    #     (they provoke the 'No matching …', 'Multiple else', 'Nested function', '… outside of loop' diagnostics)
+    openers = [i for i, t in enumerate(phys) if stmt_kind(t) in ('if', 'while', 'for', 'function') and t.rstrip().endswith(':')
+               and not t.rstrip().endswith('\\')]
+    for i in frng.sample(openers, min(2, len(openers))):
+        case('\n'.join(phys[:i] + phys[i + 1:]) + '\n', {'kind': 'opener_delete', 'line': i + 1, 'stmt': stmt_kind(phys[i])})
+    plain = [i for i, t in enumerate(phys) if not _c10.reflines._COMMENT.match(t) and single_line.get(i)]
+    for i in frng.sample(plain, min(2, len(plain))):
+        case('\n'.join(phys[:i + 1] + [phys[i]] + phys[i + 1:]) + '\n', {'kind': 'line_dup', 'line': i + 1, 'stmt': stmt_kind(phys[i])})
+        if i + 1 < n and single_line.get(i + 1):
+            case('\n'.join(phys[:i] + [phys[i + 1], phys[i]] + phys[i + 2:]) + '\n',
+                 {'kind': 'line_swap', 'line': i + 1, 'stmt': stmt_kind(phys[i])})
+    for _ in range(2):
+        kw = frng.choice(['break', 'continue', 'endif', 'endwhile', 'endfor', 'endfunction', 'else:', 'elif x:',
+                          'function nested():', 'return'])
+        at = frng.randint(0, n)
+        if at > 0 and phys[at - 1].rstrip().endswith('\\'):
+            continue
+        case('\n'.join(phys[:at] + [frng.choice(['', '  ', '\t']) + kw] + phys[at:]) + '\n',
+             {'kind': 'stray_keyword', 'line': at + 1, 'stmt': kw})
     # 5. token faults on chosen statement lines
     stmt_lines = [i for i, t in enumerate(phys) if not _c10.reflines._COMMENT.match(t)]
     for i in frng.sample(stmt_lines, min(3, len(stmt_lines))):
